@@ -256,6 +256,15 @@ def _cat(alts_a, alts_b):
     return out
 
 
+_TOP_LEVEL = set()      # ids of ++/-- nodes that are full expressions (statement or for-step)
+
+
+def _mark_top(e):
+    x = strip(e) if isinstance(e, dict) else None
+    if isinstance(x, dict) and x.get("k") == "un" and x.get("op") in ("++", "--"):
+        _TOP_LEVEL.add(id(x))
+
+
 def val_paths(e):
     """Alternative event sequences of evaluating expression e (short-circuit / ?: aware)."""
     if e is None or not isinstance(e, dict):
@@ -272,7 +281,9 @@ def val_paths(e):
     if k == "un":
         ps = val_paths(e["e"])
         if e["op"] in ("++", "--"):
-            return [p + [("inc", e)] for p in ps]
+            # a post-increment whose value is used (`a[i++]`, `i++ < n`) yields the old value: its store takes effect after the consuming
+            # event ("postinc"); as a statement of its own (or a for-step) it is an ordinary increment
+            return [p + [("postinc" if e.get("post") and id(e) not in _TOP_LEVEL else "inc", e)] for p in ps]
         if e["op"] == "!":
             return [p for p, _ in bool_paths(e)]
         return ps
@@ -427,6 +438,7 @@ def stmt_paths(s, loop_iters=2):
             init = val_paths(s.get("range"))
         cond = s.get("c")
         inc = s.get("inc")
+        _mark_top(inc)
         body = s.get("b")
 
         def cond_paths():
@@ -537,6 +549,7 @@ def stmt_paths(s, loop_iters=2):
     if k == "opaque":
         raise AnalysisBroken("opaque statement %s" % s.get("c"))
     # expression statement
+    _mark_top(s)
     return [(p, "fall") for p in val_paths(s)]
 
 
@@ -744,7 +757,19 @@ def symbolize(facts, fid, path):
     S = Sym(facts, fid)
     S._valuelocals = set()
     out = []
-    for ev in path:
+    pending = []          # post-increments whose store is deferred until the event that consumes their (old) value has been emitted
+    queue = list(path)
+    qi = 0
+    while qi < len(queue) or pending:
+        if qi >= len(queue):
+            ev = ("inc", pending.pop(0)[1])
+        else:
+            ev = queue[qi]
+            qi += 1
+            if pending and ev[0] != "postinc":
+                # emit the consumer first, then the deferred increments
+                queue[qi:qi] = [("inc", p[1]) for p in pending]
+                pending = []
         t = ev[0]
         if t == "decl":
             v = ev[1]
@@ -765,6 +790,9 @@ def symbolize(facts, fid, path):
                     val = "(" + place + n["op"][:-1] + val + ")"
                 out.append(("write", n, place, val))
                 S.stale(place)
+        elif t == "postinc":
+            pending.append(ev)
+            continue
         elif t == "inc":
             n = ev[1]
             tgt = strip(n["e"])
